@@ -8,7 +8,8 @@ Spec (regularised least squares on the numerically non-null directions, in SVD f
   W(M, Y, alpha) = V_n D(alpha) U_n^T Y,  n = #{i : s_i > rcond * s_0} (numerical rank: the cut is RELATIVE to the largest singular value, rcond = max(shape of X) * eps),  Tikhonov: D = diag(s_i / (s_i^2 + alpha)),  cut-off: D = diag(1 / s_i) on the first
   min(n, #{i : s_i > alpha}) directions;   cv_values[k] = (SCORE(X_2 W(X_1, y_1, a_k), y_2) + SCORE(X_1 W(X_2, y_2, a_k), y_1)) / 2 with a_k the (scaled) grid
   value; alpha_ = grid value at the arg-max; coef_ = W(X, y, a_best)^T; predict = X coef_^T.
-That the Tikhonov SVD form equals (M^T M + alpha I)^-1 M^T Y on the retained directions is the standard identity (cited, not derived here)."""
+That the SVD form satisfies the normal equations (M^T M + alpha I) W = M^T Y on the retained directions is the Lean theorem ridge_svd_normal_equations
+(lemmas/lean/Lemmas.lean, machine-checked; alpha = 0 gives the cut-off / least-squares case)."""
 from pyvc.api import *
 from pyvc import matlayer as ML, skstubs
 from pyvc.matlayer import Mat, mul, add, sub, T, smul, Id, at, rows, cols
@@ -309,7 +310,7 @@ UNITS = [lambda: u_lemma(), lambda: u_fit('tikhonov', 'absolute'), lambda: u_fit
 RT = True
 TRUSTED = ["matrix layer (ring laws), prefix operators ROWP/COLP (first n rows / columns) with their product/transposition laws, diagonal scaling DG(f, n) with DG-product law",
            "thin SVD contract: factors SVU/SVS/SVVT as functions of the matrix, singular values non-negative and non-increasing, so that sum(s > t) is the length CNT(M, t) of the prefix above t and np.max(s) = s[0]",
-           "the Tikhonov SVD form V diag(s/(s^2+alpha)) U^T y equals the ridge solution on the retained directions (cited); the sklearn scorer is SCORE(prediction, truth) of the identity estimator's prediction",
+           "the SVD form V diag(s/(s^2+alpha)) U^T y satisfies the normal equations of regularised least squares on the retained directions (Lean theorem ridge_svd_normal_equations, machine-checked; no longer only cited); sorted singular values make the directions above a threshold a prefix (Lean theorem above_threshold_is_prefix); the sklearn scorer is SCORE(prediction, truth) of the identity estimator's prediction",
            "KFold / check_cv yield one (fold1, fold2) pair (index sets as uninterpreted tokens: every fold assignment); joblib.Parallel evaluates the generator in order; np.spacing(1) = a positive constant",
            "numerical effects (bounded coefficients for rank-deficient X, scorers' values): bounded runtime checks"]
 LEAN_LEMMAS = "lemmas/lean/Lemmas.lean"
